@@ -9,7 +9,7 @@ FC_INVS = ["SyncNow", "BeliefSound", "OneLast", "Structure", "FreshFrame"]
 
 def model_and_replay(ctx, stride=1, max_frames=2, max_blocks=2):
     cfg = ctx.path("MC_FrameCompressor.cfg")
-    consts = {"MaxFrames": max_frames, "MaxBlocks": max_blocks, "Levels": '{"U", "F"}', "Frags": "{0, 7, 9}", "Dev_F5": "FALSE"}
+    consts = {"MaxFrames": max_frames, "MaxBlocks": max_blocks, "Levels": '{"U", "F"}', "Frags": "{0, 7, 9}", "Dev_F5": "FALSE", "Dev_LitRaw": "FALSE"}
     write_cfg(cfg, constants=consts, invariants=FC_INVS)
     dot = ctx.path("fc.dot")
     res = tlc(ctx, "FrameCompressor", cfg, workers=8, dump=dot, name="MC_FrameCompressor")
@@ -20,6 +20,11 @@ def model_and_replay(ctx, stride=1, max_frames=2, max_blocks=2):
     r5 = tlc(ctx, "FrameCompressor", cfg5, workers=4, name="MC_FrameCompressor_F5")
     if r5.inv_violated != "BeliefSound":
         raise ToolError("self-test failed: the model with Dev_F5 does not violate BeliefSound (%s)" % (r5.inv_violated or r5.error))
+    cfg6 = ctx.path("MC_FrameCompressor_LitRaw.cfg")
+    write_cfg(cfg6, constants=dict(consts, Dev_LitRaw="TRUE"), invariants=FC_INVS)
+    r6 = tlc(ctx, "FrameCompressor", cfg6, workers=4, name="MC_FrameCompressor_LitRaw")
+    if r6.inv_violated != "BeliefSound":
+        raise ToolError("self-test failed: the model with Dev_LitRaw does not violate BeliefSound (%s)" % (r6.inv_violated or r6.error))
     ctx.states += res.distinct
     ctx.transitions += res.generated
     progs = ctx.path("fc_programs.ndjson")
@@ -42,7 +47,7 @@ def model_and_replay(ctx, stride=1, max_frames=2, max_blocks=2):
     ctx.add_samples(rj["samples"][:1], 1)
     # ---- trace validation of the recorded decisions ----
     tcfg = ctx.path("Trace_FrameCompressor.cfg")
-    write_cfg(tcfg, spec="TSpec", constants={"MaxFrames": 1000000, "MaxBlocks": 1000000, "Levels": '{"U", "F"}', "Frags": "{0}", "Dev_F5": "FALSE"},
+    write_cfg(tcfg, spec="TSpec", constants={"MaxFrames": 1000000, "MaxBlocks": 1000000, "Levels": '{"U", "F"}', "Frags": "{0}", "Dev_F5": "FALSE", "Dev_LitRaw": "FALSE"},
               invariants=FC_INVS, postcondition="Accepted")
     ok, info, tres = trace_validate(ctx, "Trace_FrameCompressor", tcfg, trace, "tv_frame_compressor")
     ctx.traces += rj["programs"]
